@@ -508,6 +508,11 @@ class SliceSpec(SerdeSpec):
         from . import pslice as PL
         return PL.tasks(tier)
 
+    def run(s, prop, tier, seed, args, t0):
+        # these obligations take seconds; one that hashes a symbolic label (SipHash) would keep the solver busy for its whole budget
+        os.environ.setdefault('SEIR_TASK_TIMEOUT', '300' if tier == 'quick' else '1800')
+        return SerdeSpec.run(s, prop, tier, seed, args, t0)
+
     def replay(s, path):
         from . import pslice as PL
         v = json.load(open(path))
@@ -518,8 +523,42 @@ class SliceSpec(SerdeSpec):
         return 1 if out else 0
 
 
+class MergeSpec(SliceSpec):
+    """C11 / C12 on the build-std IR (std HashMap/HashSet, recursion, anyhow error text)"""
+    assumptions = ['the structure of both graphs is fixed per task: present ids, edge targets (trees of up to 3 vertices with out-degree <= 2 on arbitrary ids below the capacity), which vertices of the right graph carry data, the group structure a history of add/bind leaves (connected vertices share a group), the left graph\'s allocator position (every value that leaves enough absent ids)',
+                   'symbolic: all labels of both graphs (one kind per task, or any kind), all data bytes (inline 0..8 with padding, heap 9 and 10), the persistence of the left graph\'s vertices; the real code forks on every comparison of a right label with the labels of the left vertex it is mapped to, so every overlap of the two trees is a path',
+                   'N=4 so that two labels demanded by the right graph always fit next to two of the left (the property is stated for results within the limits)',
+                   'fixed hash keys; built with the nightly toolchain and -Zbuild-std']
+    bounds = 'N=4, capacity 5; quick: 60 (C11) / 40 (C12) pairs of tree shapes drawn from all pairs, left vertex, position and data placement rotating; thorough: 600 / 400'
+
+    def __init__(s, which):
+        GraphSpec.__init__(s, [], {'C11': "merge() of two trees executed on the IR: returns Ok; the right-to-left mapping followed along the labels in the post-state exists for every right path, is injective, maps onto vertices carrying the same data; everything the left graph had is still there; every edge afterwards is an old one or demanded by the right graph; exactly the demanded new vertices were created under ids that were absent; Inv (counter == recount) holds again; the right graph is byte-identical",
+                                   'C12': "merge() with a right graph that has present vertices `right` does not reach: every path returns Err, never Ok, and the text names exactly the missed vertices; the right graph is byte-identical"}[which])
+        s.which = which
+
+    @property
+    def judge(s):
+        from . import pmerge
+        return pmerge.judge_merge
+
+    def tasks(s, tier):
+        from . import pmerge as PM
+        return PM.tasks(tier, s.which)
+
+    def replay(s, path):
+        from . import pmerge as PM
+        v = json.load(open(path))
+        b = H.build_drv('dev-like')
+        lines, crashed, stderr = H.native_replay(b['replay'], v['job'])
+        out, info = PM.judge_merge(v['job'], lines, crashed, stderr)
+        print(json.dumps({'reproduces': bool(out), 'what': out}, indent=1))
+        return 1 if out else 0
+
+
 PROPS = {
     'C13': SliceSpec(),
+    'C11': MergeSpec('C11'),
+    'C12': MergeSpec('C12'),
     'C20': Text20Spec(),
     'C18': ExportSpec(),
     'C08': SerdeSpec('C08'),
